@@ -17,6 +17,7 @@ import RSVerif.Proofs.SrcEngineSpec
 import RSVerif.Proofs.SrcKernelSpec
 import RSVerif.Proofs.SrcShardsSpec
 import RSVerif.Proofs.SrcGlueSpec
+import RSVerif.Proofs.SrcKernelFlat
 
 namespace RS
 open ShardAlg
@@ -297,6 +298,25 @@ theorem source_shards_are_flat_model (f : Flat) (hs : f.data.size < 184467440737
    (src_zero f hs a b).1, (src_zero f hs a b).2, (src_split_at_mut f hs a).1,
    fun hi => ⟨(src_index f hs a hi).1, (src_index f hs a hi).2.1, (src_index f hs a hi).2.2.1,
      (src_index f hs a hi).2.2.2.1⟩⟩
+
+open RS.SrcS RS.RustS RS.SrcK RS.RustK in
+/-- SOURCE SLICING + SOURCE KERNELS COMPOSED: `dist2_mut` as translated from today's `shards.rs`, followed by the partial
+    (i)fft butterfly as translated from today's `engine_nosimd.rs` / `utils.rs` on the blocks the two views denote,
+    written back through the views, IS the flat model's butterfly `Flat.fftBfly (g^m)` / `Flat.ifftBfly (g^m)` — for every
+    memory of fewer than 2^64 blocks, every multiplier `g^m`, every `pos`, `dist`, and `none` (a slicing panic) exactly
+    where the model has one. `flat_butterflies_refine` then carries it to the shard-array model the schedules and the
+    encoders / decoders are proved on. (The SIMD families compute the same blocks: `source_kernels_agree`.) -/
+theorem source_butterflies_on_flat_memory (m : Nat) (f : Flat) (hs : f.data.size < 18446744073709551616)
+    (pos dist : Nat) :
+    ((ShardsRefMut_dist2_mut (hdr f) pos dist).map fun v =>
+        let r := NoSimd_fft_butterfly_partial (lut16 (fun s => gmul (gexp m) s))
+                   (v.1.get f.data).toList (v.2.get f.data).toList
+        f.putDist2 pos dist r.1.toArray r.2.toArray) = f.fftBfly (gexp m) pos dist ∧
+    ((ShardsRefMut_dist2_mut (hdr f) pos dist).map fun v =>
+        let r := NoSimd_ifft_butterfly_partial (lut16 (fun s => gmul (gexp m) s))
+                   (v.1.get f.data).toList (v.2.get f.data).toList
+        f.putDist2 pos dist r.1.toArray r.2.toArray) = f.ifftBfly (gexp m) pos dist :=
+  ⟨src_fft_butterfly_on_flat m f hs pos dist, src_ifft_butterfly_on_flat m f hs pos dist⟩
 
 open RS.SrcG RS.RustG in
 /-- the ENTRY POINTS of the engines in today's source (`Gen/SrcGlue.lean`): `Engine::{fft, ifft, mul, eval_poly}` of
